@@ -60,7 +60,7 @@ CLAIMED = {
    design="DESIGN.md section 4, C19"),
  "C15": dict(
    technique="property-based testing of generated multi-threaded programs under fault injection (gc-stress: a world-stopping full collection forced every 40-1000 allocations on whichever thread allocates), with per-thread invariants (private graph checksum, accumulator), visibility of global assignments after a channel handshake, and the heap hooks; the OS owns the schedule",
-   text="Generated-input search: 60 (quick) programs with 1-8 native worker threads x 50-2000 iterations under forced world-stopping collections and global definitions / assignments by the main thread; checked: every worker's final accumulator and private-graph checksum, the global a worker reads after receiving the main thread's i-th value (>= i), stale-handle hook, crashes, completion. Weak: the schedule is not controlled, so a violation that needs a particular interleaving is found only by chance, and the 'being scanned' flag hook the property names is not implemented - only consequences are observed.",
+   text="Generated-input search: 48 (quick) programs with 1-8 native worker threads x 50-2000 iterations under forced world-stopping collections and global definitions / assignments by the main thread; checked: every worker's final accumulator and private-graph checksum, the global a worker reads after receiving the main thread's i-th value (>= i), stale-handle hook, crashes, completion. Weak: the schedule is not controlled, so a violation that needs a particular interleaving is found only by chance, and the 'being scanned' flag hook the property names is not implemented - only consequences are observed.",
    note="Trusted: hooks gc-stress / stale-handle (feature verif). Several genuine, schedule dependent defects are listed as known findings (a worker's live data swept by another thread's collection; deadlock of forced collections; slot dropped by another thread's compaction) and matched by signature, which also means that a new defect with one of these symptoms is not distinguished from them.",
    design="DESIGN.md section 4, C15"),
  "C16": dict(
